@@ -633,7 +633,7 @@ class Spider(Box):
         dom, cod = dim ** n_legs_in, dim ** n_legs_out
         array = numpy.zeros(dom @ cod)
         for i in range(int(numpy.prod(dim))):
-            array[len(dom @ cod) * (i, )] = 1
+            array[len(dom @ cod) * (i, )] += 1
         super().__init__(
             name, dom, cod, data=array,
             draw_as_spider=True, color="black", drawing_name="")
